@@ -193,7 +193,7 @@ func vfC15Run(e *vfEnv, r *vfResult, idx int) { //nolint:cyclop,maintidx
 		crng := rand.New(rand.NewPCG(e.seed+uint64(idx)*53+uint64(ci), 61)) //nolint:gosec
 		res := &clientRes{id: ci}
 		results[ci] = res
-		res.kind = []string{"good", "good", "good", "good", "unknown-ufrag", "garbage", "non-binding", "no-username", "oversized", "slow-loris", "connect-close"}[crng.IntN(11)]
+		res.kind = []string{"good", "good", "good", "good", "unknown-ufrag", "garbage", "non-binding", "no-username", "oversized", "slow-loris", "connect-close", "trickle"}[crng.IntN(12)]
 		res.ufrag = ufrags[crng.IntN(len(ufrags))]
 		cwg.Add(1)
 		go func() {
@@ -235,9 +235,15 @@ func vfC15Run(e *vfEnv, r *vfResult, idx int) { //nolint:cyclop,maintidx
 				// the first frame may arrive in pieces
 				fr := vfFrame(first)
 				cut := 1 + crng.IntN(len(fr)-1)
+				splitHeader := crng.IntN(4) == 0
+				if splitHeader {
+					cut = 1 // the two bytes of the length header arrive in separate segments
+				}
 				t0 := time.Now() // (the connection was accepted some time before this; the mux's deadline runs from its accept)
 				_, _ = c.Write(fr[:cut])
-				if crng.IntN(2) == 0 {
+				if splitHeader {
+					time.Sleep(2 * time.Millisecond)
+				} else if crng.IntN(2) == 0 {
 					time.Sleep(time.Duration(crng.IntN(3)) * time.Millisecond)
 				}
 				_, _ = c.Write(fr[cut:])
@@ -246,7 +252,13 @@ func vfC15Run(e *vfEnv, r *vfResult, idx int) { //nolint:cyclop,maintidx
 				for k := 0; k < nPk; k++ {
 					p := []byte(fmt.Sprintf("\x90c%d-%d-%d", idx, res.id, k))
 					res.sent = append(res.sent, string(p))
-					if _, err := c.Write(vfFrame(p)); err != nil {
+					pf := vfFrame(p)
+					if crng.IntN(5) == 0 {
+						_, _ = c.Write(pf[:1]) // header of a later frame split as well
+						time.Sleep(time.Millisecond)
+						pf = pf[1:]
+					}
+					if _, err := c.Write(pf); err != nil {
 						break
 					}
 				}
@@ -285,6 +297,30 @@ func vfC15Run(e *vfEnv, r *vfResult, idx int) { //nolint:cyclop,maintidx
 			case "slow-loris":
 				_, _ = c.Write([]byte{0})
 				expectEOF(20 * firstTO)
+			case "trickle":
+				// a first frame that keeps coming, one byte every quarter of the first-frame timeout: the timeout bounds
+				// the whole first frame, not the silence between two bytes
+				long := vfFrame(append(vfStunWithUser(crng, &user), make([]byte, 400)...))
+				start := time.Now()
+				for _, b := range long {
+					if _, err := c.Write([]byte{b}); err != nil {
+						res.closedByMux = true
+
+						break
+					}
+					_ = c.SetReadDeadline(time.Now().Add(firstTO / 4))
+					if _, err := c.Read(make([]byte, 8)); err != nil {
+						var ne net.Error
+						if !(errors.As(err, &ne) && ne.Timeout()) {
+							res.closedByMux = true
+
+							break
+						}
+					}
+					if time.Since(start) > 20*firstTO {
+						break
+					}
+				}
 			case "connect-close":
 				if crng.IntN(2) == 0 {
 					_, _ = c.Write([]byte{0, 40, 1})
@@ -440,7 +476,7 @@ func vfC15Run(e *vfEnv, r *vfResult, idx int) { //nolint:cyclop,maintidx
 	// ---- hostile clients were disconnected
 	for _, res := range results {
 		switch res.kind {
-		case "garbage", "non-binding", "no-username", "oversized", "slow-loris", "unknown-ufrag":
+		case "garbage", "non-binding", "no-username", "oversized", "slow-loris", "unknown-ufrag", "trickle":
 			if res.err == "" && !res.closedByMux {
 				r.violation("tcpmux-hostile-left-open:"+res.kind, fmt.Sprintf("history %d: %s client %d was still connected after 20x the configured timeout", idx, res.kind, res.id), wit)
 			}
@@ -748,6 +784,88 @@ func kindSet(k []string) string {
 	return strings.Join(vfSortedKeys(m), ",")
 }
 
+// vfC15FullQueueClose: the owner of a ufrag does not read (or is behind); the peer has sent more packets than the
+// receive queue holds, so the connection's reader is parked handing one over.  Mux Close / RemoveConnByUfrag / closing
+// the owner's handle must still return, with every goroutine gone.
+func vfC15FullQueueClose(e *vfEnv, r *vfResult, idx int) {
+	rng := e.rng(idx, "tcpmux-fullqueue")
+	ln, err := net.Listen("tcp", "127.0.0.1:0")
+	if err != nil {
+		r.inconclusive(1)
+
+		return
+	}
+	mux := NewTCPMuxDefault(TCPMuxParams{Listener: ln, Logger: vfQuietLogger().NewLogger("ice"), ReadBufferSize: rng.IntN(3),
+		FirstStunBindTimeout: 2 * time.Second, AliveDurationForConnFromStun: 2 * time.Second})
+	closed := make(chan struct{})
+	defer func() { // bounded: on a tree where the reader never lets go the mux cannot finish closing
+		go func() { _ = mux.Close(); close(closed) }()
+		select {
+		case <-closed:
+		case <-time.After(5 * time.Second):
+		}
+	}()
+	pc, err := mux.GetConnByUfrag("full", false, net.IPv4(127, 0, 0, 1))
+	if err != nil {
+		r.inconclusive(1)
+
+		return
+	}
+	c, err := net.DialTimeout("tcp", ln.Addr().String(), 2*time.Second)
+	if err != nil {
+		r.inconclusive(1)
+
+		return
+	}
+	defer c.Close() //nolint:errcheck
+	user := "full:remote"
+	_, _ = c.Write(vfFrame(vfStunWithUser(rng, &user)))
+	for k := 0; k < 6+rng.IntN(8); k++ {
+		_, _ = c.Write(vfFrame([]byte(fmt.Sprintf("\x90full-%d-%d", idx, k))))
+	}
+	parked := func() bool {
+		for _, g := range strings.Split(vfStacks(), "\n\n") {
+			if strings.Contains(g, "(*tcpPacketConn).handleRecv") || (strings.Contains(g, "(*tcpPacketConn).AddConn.func1") && strings.Contains(g, "[select")) {
+				return true
+			}
+		}
+
+		return false
+	}
+	for dl := time.Now().Add(3 * time.Second); !parked() && time.Now().Before(dl); time.Sleep(300 * time.Microsecond) {
+	}
+	if !parked() {
+		r.count("c15_full_queue_not_reached", 1)
+
+		return
+	}
+	how := []string{"mux.Close", "RemoveConnByUfrag", "handle.Close"}[rng.IntN(3)]
+	done := make(chan struct{})
+	go func() {
+		defer close(done)
+		switch how {
+		case "mux.Close":
+			_ = mux.Close()
+		case "RemoveConnByUfrag":
+			mux.RemoveConnByUfrag("full")
+		default:
+			_ = pc.Close()
+		}
+	}()
+	r.eval(1)
+	ok, stuck, dump := vfAwaitOrStuck(done, 3*time.Second)
+	switch {
+	case ok:
+		r.count("c15_full_queue_closes_checked", 1)
+	case stuck:
+		r.violation("tcpmux-close-stuck:receive-queue-full", fmt.Sprintf("history %d: %s did not return while a connection's reader was handing a packet to the full receive queue of its ufrag: the involved goroutines are parked in the same frames in two dumps", idx, how),
+			map[string]any{"idx": idx, "how": how, "stacks": dump})
+	default:
+		r.inconclusive(1)
+	}
+	r.distinct("tcpmux-fullqueue/" + how)
+}
+
 func TestVerifC15(t *testing.T) {
 	vfRun(t, "C15", func(e *vfEnv, r *vfResult) {
 		// warm-up: the runtime opens its poller descriptors on first network use; keep that out of the fd census
@@ -764,6 +882,8 @@ func TestVerifC15(t *testing.T) {
 				vfC15CloseOverlap(e, r, i)
 			case i%8 == 6:
 				vfC15Provisional(e, r, i)
+			case i%16 == 1:
+				vfC15FullQueueClose(e, r, i)
 			default:
 				vfC15Run(e, r, i)
 			}
